@@ -267,6 +267,7 @@ fn props() -> Vec<Property> {
             Scenario { name: "N-connect-scripts", engine: "N", run: c14::run_script, quick: 30_000, thorough: 1_500_000, grid: c14::GRID, what: "fault scripts over {next connect fails, next connect succeeds, established connection dropped by the peer} x {lazy, eager}: all 726 scripts of length <= 5 enumerated first, then random scripts up to length 14; a call (sometimes two back-to-back) at every quiescent point; real Channel (Buffer, Reconnect, hyper/h2 client) and Server" },
             Scenario { name: "N-midcall-death", engine: "N", run: c14::run_midcall, quick: 20_000, thorough: 1_000_000, grid: 0, what: "relaxed configuration: the first connection dies at a drawn byte offset (inside the HTTP/2 handshake, inside the request, inside the response) during a unary or server-streaming call; then calls at quiescent points must recover" },
             Scenario { name: "N-graceful-goaway", engine: "N", run: c14::run_goaway, quick: 10_000, thorough: 500_000, grid: 0, what: "the server retires connections gracefully (GOAWAY after max_connection_age 5 ms..1 s) while the channel is idle; 2..5 rounds of calls at quiescent points, lazy/eager, with/without client keep-alive: every round's call (at the latest the second attempt) succeeds on a fresh connection" },
+            Scenario { name: "N-balanced-channel", engine: "N", run: c14::run_balanced, quick: 10_000, thorough: 500_000, grid: 0, what: "a balanced channel (tower p2c Balance over one lazily connected endpoint, as Channel::balance_channel builds; hook H4 supplies the simulated connector; more endpoints would bring in p2c's entropy-seeded random choice) under a script of failing/succeeding attempts and killed connections: no call hangs, failures are UNAVAILABLE and never outnumber the failed attempts, and the channel recovers once attempts succeed" },
         ],
         rule: "one run = one fault script (or one kill offset) x lazy/eager x network fragmentation; every run non-trivial; distinct = distinct hash of structural tape decisions and of the ordered network-event kinds; the first 726 runs enumerate all scripts of length <= 5",
         real_vs_stub: RVS_N.to_vec(),
